@@ -29,14 +29,15 @@ def check(pid, tier):
     ev = Evidence(pid, tier)
     out_lines, violations, machinery = [], [], []
     rng = random.Random(seed())
-    fams = ["ring2", "chain3", "fan", "ring2prov"] if tier == "quick" else ["ring2", "chain3", "fan", "ring2prov", "loop3", "ring3"]
+    fams = (["ring2", "chain3", "fan", "ring2prov", "chain3refine"] if tier == "quick"
+            else ["ring2", "chain3", "fan", "ring2prov", "chain3refine", "ring2refine", "loop3", "ring3"])
     r = mc(fams, INVS, ["Terminates"])
     ev.add_mc("Connect/" + "+".join(fams), r, {"families": fams, "invariants": INVS, "liveness": "Terminates"})
     if not r.ok:
         path = save_replay(pid, {"kind": "tlc-counterexample", "violated": r.violated, "output": r.out[-6000:]})
         violations.append((pid, f"design-level: {r.violated} violated in Connect.tla", path))
-    for inv in ("NeverStall", "NeverOk"):     # vacuity: both outcomes are reachable
-        rv = mc(["ring2"], [inv], [])
+    for inv, fam in (("NeverStall", "ring2"), ("NeverOk", "ring2"), ("NeverGuess", "chain3refine")):
+        rv = mc([fam], [inv], [])      # vacuity: both outcomes, and a published first guess, are reachable
         if rv.ok:
             machinery.append(f"vacuity guard {inv} was not violated")
     cases = []
